@@ -375,6 +375,9 @@ def hybrid_programs(rng: random.Random, n: int):
     T("call;value", "{ ReV = clz32(RsV) + 1; }")
     T("call;unused", "{ ReV = RsV; clz32(RsV); RddV = ReV; }")
     T("call;two", "{ ReV = clo32(RsV) + clo32(RtV); }")
+    T("call;three", "{ ReV = clo32(RsV) + clz32(RtV) * fbrev(RsV); RddV = clz64(RuuV) - clo64(RvvV); }")
+    T("post;two", "{ int32_t a = RsV; int32_t b = RtV; ReV = a++ + b--; RddV = a + b; }", [("a", "int32_t"), ("b", "int32_t")])
+    T("post;seq", "{ int32_t a = RsV; ReV = (a++ > 0) ? a++ : 0; RddV = a; }", a32)
     T("call;arg", "{ ReV = clz32(fbrev(RsV)); RddV = clz64(revbit64(RuuV)); }")
     T("call;cond", "{ if (clz32(RsV) > 16) { ReV = 1; } else { ReV = clo32(RtV); } }")
     T("call;arm", "{ ReV = (RsV > 0) ? clz32(RsV) : clo32(RsV); }")
@@ -551,6 +554,9 @@ def fold_programs(rng: random.Random, n: int):
         ("imm_dead", "{ RddV = 1 ? RuuV : siV; ReV = siV + uiV; }"),
         ("nested", "{ RddV = 1 ? (0 ? RtV : RuuV) : RsV; ReV = RsV + RtV; }"),
         ("lit_dead", "{ RddV = 1 ? RuuV : 0x7; ReV = 0x7 + RsV; }"),
+        ("postfix_dead", "{ int32_t q = RsV; RddV = 0 ? q++ : RuuV; ReV = q; }"),
+        ("postfix_dead2", "{ int32_t q = RsV; RddV = 1 ? RuuV : q--; ReV = q; }"),
+        ("postfix_dead3", "{ int32_t q = 0; ReV = (0 ? q++ : RsV); }"),
     ]
     for nm, text in dead:
         T(f"dead;{nm}", text, [("q", "int32_t")] if "q =" in text else (), vk="dead:" + nm)
